@@ -176,6 +176,14 @@ def run(ctx: Ctx):
             checks.append(("Sphere(center)", f, lambda f=f, c=c: (g.Sphere(g.Point(np.array(c + [2, 1]) * f), 2).array, g.Sphere(g.Point(*c, 2), 2).array)))
             checks.append(("Ellipse(center)", f, lambda f=f, c=c: (g.Ellipse(g.Point(np.array(c + [1]) * f), 3, 2).array, g.Ellipse(g.Point(*c), 3, 2).array)))
             checks.append(("reflection(line)", f, lambda f=f, c=c: (g.reflection(g.Line(np.array(c + [3]) * f)).array, g.reflection(g.Line(*c, 3)).array)))
+    # an axis given by a complex multiple of its real coordinates is the same line / plane: the same reflection (the Householder
+    # term is |c|^2 n n^T for the axis c n) and the same translation / centre for complex multiples of a finite point
+    for c in ([1, 2], [-3, 1], [0, 2], [5, -4]):
+        for f in CFACT + [-2j, 2 - 3j]:
+            checks.append(("reflection(line)", f, lambda f=f, c=c: (g.reflection(g.Line(np.array(c + [3]) * f)).array, g.reflection(g.Line(*c, 3)).array)))
+            checks.append(("reflection(plane)", f, lambda f=f, c=c: (g.reflection(g.Plane(np.array(c + [-2, 3]) * f)).array, g.reflection(g.Plane(*c, -2, 3)).array)))
+            checks.append(("reflection(plane through origin)", f, lambda f=f, c=c: (g.reflection(g.Plane(np.array(c + [1, 0]) * f)).array, g.reflection(g.Plane(*c, 1, 0)).array)))
+            checks.append(("translation(point)", f, lambda f=f, c=c: (g.translation(g.Point(np.array(c + [1]) * f)).array, g.translation(*c).array)))
     # integer representatives whose last coordinate is not 1 and does not divide the others (so that no scalar multiple of a
     # w = 1 integer point has this dtype and shape of data), against the float representative with w = 1; integer radii
     for h in ([1, 2, 2], [3, -1, 2], [1, 3, 4]):
@@ -231,7 +239,7 @@ def run(ctx: Ctx):
                 checks.append((f"Conic.from_foci({f1}, {f2}, {b})/argument-{k}", f, lambda k=k, f=f, ff=ff: (ff(k, f), ff(k, 1))))
     for name, f, fn in checks:
         n_cases += 1
-        stratum = "integer-representative" if "integer-representative" in name else ("negative-factor" if f < 0 else "positive-factor")
+        stratum = "integer-representative" if "integer-representative" in name else ("complex-factor" if isinstance(f, complex) else "negative-factor" if f < 0 else "positive-factor")
         ctx.count(stratum)
         try:
             a, b = fn()
@@ -240,7 +248,7 @@ def run(ctx: Ctx):
         except Exception as e:  # noqa: BLE001
             ok, obs = False, f"raised {type(e).__name__}: {e}"
         if not ok:
-            ctx.mismatch(name, stratum, {"factor": f}, "the same object as for the unscaled representative", str(obs)[:300])
+            ctx.mismatch(name, stratum, {"factor": str(f)}, "the same object as for the unscaled representative", str(obs)[:300])
     ctx.cov["traces_validated_against_impl"] += n_cases
     ctx.sample({"op": recs[0]["op"], "args": recs[0]["a"], "answer": recs[0]["ans"], "factors": list(FACT)})
     ctx.log(f"{len(recs)} configurations, {n_cases} scaled cases")
